@@ -17,6 +17,7 @@ open Common C10
 inductive Tok
   | call (a : Nat) (idx : List Nat)
   | rel (as : List Nat)
+  | cbret (a : Nat)
   | fin (a : Nat)
   | cancel | cleanup | watchdog
   | ret (v : String)
@@ -38,6 +39,10 @@ def parseTok (s : String) : Tok :=
   else if s.startsWith "r" then
     match ((s.drop 1).toString.splitOn "+").mapM String.toNat? with
     | some l => .rel l
+    | none => .bad s
+  else if s.startsWith "d" then
+    match (s.drop 1).toString.toNat? with
+    | some a => .cbret a
     | none => .bad s
   else if s.startsWith "f" then
     match (s.drop 1).toString.toNat? with
@@ -119,7 +124,12 @@ def applyTok (ss : SS) : Tok → SS
       let k ← threadIdx s a
       let t ← s.thr[k]?
       if t.todo == idx then step s (.start k) else none
-  | .rel as => as.foldl (fun ss a => mapSS ss fun s => do step s (.ret (← threadIdx s a))) ss
+  -- the gate opens: harness-side only; the callback is still running (model event: none)
+  | .rel as => as.foldl (fun ss a => mapSS ss fun s => do
+      let t ← s.thr[← threadIdx s a]?
+      if t.st == .inCall then some s else none) ss
+  -- the callback returns (the token is written by the callback itself right before `return`)
+  | .cbret a => mapSS ss fun s => do step s (.ret (← threadIdx s a))
   | .fin a => mapSS (closure ss) fun s => do
       let k ← threadIdx s a
       let t ← s.thr[k]?
@@ -138,6 +148,7 @@ def applyTok (ss : SS) : Tok → SS
 def showTok : Tok → String
   | .call a idx => s!"c{a}:" ++ ".".intercalate (idx.map toString)
   | .rel as => "r" ++ "+".intercalate (as.map toString)
+  | .cbret a => s!"d{a}"
   | .fin a => s!"f{a}"
   | .cancel => "x" | .cleanup => "C" | .watchdog => "T"
   | .ret v => "R:" ++ v
@@ -158,27 +169,25 @@ def earlyName : Early → String
 def accept (icount : Int) (cancelAt : Option Nat) (gets : List GetRes) (outs : List (Nat × Outcome))
     (trace : List Tok) (ngets : String) : String :=
   match prepare icount cancelAt gets with
-  | .error (e, g) =>
-    -- sequential early return: Cleanup once, then the error; nothing else (the harness' own `x` aside)
+  | .error r =>
+    -- sequential early return: `cleanups` × Cleanup, then the return; no callback (the harness' own `x` aside)
     let tr := trace.filter (· != .cancel)
-    let wantOf (e : Early) : List Tok := (earlyTrace e).map fun ev => match ev with
-      | .cleanup => Tok.cleanup
-      | .ret e => Tok.ret (earlyName e)
+    let wantOf (r : EarlyRet) : List Tok := List.replicate r.cleanups Tok.cleanup ++ [Tok.ret (earlyName r.why)]
     -- The harness' cancel (`x`) runs concurrently with the call. When it is observed BEFORE the early
     -- return, the context may already have ended when the prefix made its last context check: the run
     -- in which the context ended before the call (cancelAt = 0) is then an equally valid run of the model.
-    let alt : Option (Early × Nat) :=
+    let alt : Option EarlyRet :=
       if trace.head? == some Tok.cancel then
         match prepare icount (some 0) gets with
         | .error x => some x
         | .ok _ => none
       else none
-    if tr == wantOf e then (if toString g != ngets then s!"model-gets={g}" else "-")
+    if tr == wantOf r then (if toString r.gets != ngets then s!"model-gets={r.gets}" else "-")
     else match alt with
-      | some (e', g') =>
-        if tr == wantOf e' then (if toString g' != ngets then s!"model-gets={g'}" else "-")
-        else "model=" ++ ",".intercalate ((wantOf e).map showTok)
-      | none => "model=" ++ ",".intercalate ((wantOf e).map showTok)
+      | some r' =>
+        if tr == wantOf r' then (if toString r'.gets != ngets then s!"model-gets={r'.gets}" else "-")
+        else "model=" ++ ",".intercalate ((wantOf r).map showTok)
+      | none => "model=" ++ ",".intercalate ((wantOf r).map showTok)
   | .ok p =>
     if toString p.gets != ngets then s!"model-gets={p.gets}" else
     acceptFrom (Std.HashSet.emptyWithCapacity.insert (initSt p (outFn outs))) 0 trace
@@ -192,7 +201,8 @@ structure Key where
 
 structure JSt where
   calls : List Nat := []          -- replicas whose callback was invoked (with repetitions)
-  released : List Nat := []
+  released : List Nat := []       -- gates opened by the harness
+  answered : List Nat := []       -- replicas whose callback has returned (`d` tokens, written by the callback)
   cancelled : Bool := false
   returned : Bool := false
   watchdog : Bool := false
@@ -246,11 +256,15 @@ def judge (waits : Bool) (icount : Int) (getErr : Bool) (keys : List Key) (outs 
       let j := checkLate j
       let j := if j.cleanups > 0 then j.flag "cleanup-before-calls-finished" else j
       { j with released := j.released ++ as }
-    | .fin _ => j
+    | .cbret a =>
+      let j := if j.cleanups > 0 then j.flag "cleanup-before-calls-finished" else j
+      { j with answered := a :: j.answered }
+    | .fin _ => j   -- written by the harness some time AFTER the goroutine finished: carries no ordering information
     | .cancel => { (checkLate j) with cancelled := true }
     | .cleanup =>
       let j := if j.cleanups > 0 then j.flag "cleanup-twice" else j
-      let j := if !(j.calls.all j.released.contains) then j.flag "cleanup-before-calls-finished" else j
+      -- "after all replica calls have finished": every callback invoked so far has returned
+      let j := if !(j.calls.all j.answered.contains) then j.flag "cleanup-before-calls-finished" else j
       { j with cleanups := j.cleanups + 1 }
     | .watchdog =>
       let j := if !j.returned && (due j || getErr || icount ≤ 0) then j.flag "no-return" else j
@@ -259,15 +273,15 @@ def judge (waits : Bool) (icount : Int) (getErr : Bool) (keys : List Key) (outs 
       let j := if j.returned then j.flag "returned-twice" else j
       let j :=
         if v == "nil" then
-          if getErr || icount ≤ 0 || !(keys.all (keyHasQuorum outs j.released)) then j.flag "success-without-quorum" else j
+          if getErr || icount ≤ 0 || !(keys.all (keyHasQuorum outs j.answered)) then j.flag "success-without-quorum" else j
         else if v == "ctx" then (if j.cancelled then j else j.flag "ctx-error-without-cancel")
         else if v == "get" then (if getErr then j else j.flag "unexpected-error")
         else if v == "noinst" then (if icount ≤ 0 then j else j.flag "unexpected-error")
         else if v.startsWith "e" && v != "enil" then
           match (v.drop 1).toString.toNat? with
           | some a =>
-            let j := if j.released.contains a && outFn outs a != .ok && selected.contains a then j else j.flag "error-not-from-a-replica"
-            if keys.any (keyDoomed outs j.released) then j else j.flag "error-without-failed-key"
+            let j := if j.answered.contains a && outFn outs a != .ok && selected.contains a then j else j.flag "error-not-from-a-replica"
+            if keys.any (keyDoomed outs j.answered) then j else j.flag "error-without-failed-key"
           | none => j.flag "unexpected-error"
         else if v == "enil" then j.flag "error-not-from-a-replica"
         else j.flag "unexpected-error"
